@@ -9,6 +9,7 @@
   (and with it everything below it).
 -/
 import RbModel.Lemmas.Arabic
+import RbModel.Gen.ArabicScripts
 
 namespace RbModel.Arabic
 open RbModel.Spec.Joining
@@ -300,5 +301,63 @@ theorem C11_masks_mongolian (oneMask : String → Nat) (pre post : List JT) (ite
     rw [List.zip_map_right]; rfl
   rw [hz, mongolianCopy_map, List.zip_map_left]
   exact applyMasks_forms oneMask _
+
+/-! ## every script that owns joining letters reaches the joining analysis
+
+The joining pass (`arabic_joining` + `setup_masks_inner`, the theorems above) runs in two places: in the Arabic
+shaper, and in the Universal Shaping Engine for the scripts listed in `has_arabic_joining` (for every other script
+the Universal shaper assigns isol/init/medi/fina by cluster adjacency alone, ignoring joining types and
+contexts).  `Gen.ArabicScripts` (regenerated on every run) holds: the letters of the crate's joining table grouped
+by their Unicode script, the shaper `hb_ot_shape_complex_categorize` picks for each such script when the font has
+the script's own OpenType tag, and the `has_arabic_joining` list read from the source.  A script dropped from that
+list, or sent to another shaper, makes the theorems below false. -/
+
+open RbModel.Gen.ArabicScripts (joiningLetterRuns joiningScriptShaper useJoiningScripts)
+
+/-- table entries of letters that take positional forms: L, R, D, Alaph, Dalath/Rish -/
+def isLetterRaw (raw : Nat) : Bool :=
+  [JoiningType.L, .R, .D, .GroupAlaph, .GroupDalathRish].any (fun t => t.toNat == raw)
+
+/-- `Zyyy` (Common: U+0640 TATWEEL) and `Zinh` (Inherited: U+200D ZERO WIDTH JOINER): characters of no
+    particular script, shaped with the script of the text around them -/
+def neutralScript (sc : Nat) : Bool := sc == 0x5A797979 || sc == 0x5A696E68
+
+/-- text of script `sc` (horizontal, font with the script's OpenType tag) gets the joining analysis: the crate
+    picks the Arabic shaper (code 1), or the Universal shaper (code 2) and `has_arabic_joining(sc)` holds -/
+def runsJoining (sc : Nat) : Bool :=
+  match joiningScriptShaper.lookup sc with
+  | some 1 => true
+  | some 2 => useJoiningScripts.contains sc
+  | _ => false
+
+/-- `c` lies in a run of joining letters whose script is neutral or gets the joining analysis -/
+def letterRouted (c : Nat) : Bool :=
+  joiningLetterRuns.any (fun r => decide (r.1 ≤ c) && decide (c ≤ r.2.1) && (neutralScript r.2.2 || runsJoining r.2.2))
+
+set_option maxRecDepth 100000 in
+/-- every script that owns a joining letter of the crate's table is shaped with the joining analysis -/
+theorem C11_joining_scripts_routed :
+    ∀ r ∈ joiningLetterRuns, neutralScript r.2.2 = true ∨ runsJoining r.2.2 = true := by decide +kernel
+
+set_option maxRecDepth 100000 in
+/-- the finite check behind `C11_joining_letters_routed`, over the generated table -/
+theorem C11_joining_letters_routed_check :
+    RbModel.Gen.Arabic.joiningRanges.all (fun r =>
+      !isLetterRaw r.2.2 || (List.range' r.1 (r.2.1 + 1 - r.1)).all letterRouted) = true := by decide +kernel
+
+/-- … stated per character of the generated joining table: every code point whose table entry is a letter
+    (L, R, D, Alaph, Dalath/Rish) belongs to a script for which the joining analysis runs (or to no script) -/
+theorem C11_joining_letters_routed :
+    ∀ r ∈ RbModel.Gen.Arabic.joiningRanges, isLetterRaw r.2.2 = true →
+      ∀ c, r.1 ≤ c → c ≤ r.2.1 → letterRouted c = true := by
+  intro r hr hl c h1 h2
+  have h := List.all_eq_true.mp C11_joining_letters_routed_check r hr
+  rw [hl] at h
+  simp only [Bool.not_true, Bool.false_or] at h
+  exact List.all_eq_true.mp h c (by rw [List.mem_range'_1]; omega)
+
+/-- non-vacuity: BEH (Arabic shaper), Psalter Pahlavi ALEPH and Adlam ALIF (Universal shaper) are such letters -/
+example : isLetterRaw 3 = true ∧ runsJoining 0x41726162 = true ∧ runsJoining 0x50686C70 = true
+    ∧ letterRouted 0x628 = true ∧ letterRouted 0x10B80 = true ∧ letterRouted 0x1E900 = true := by decide +kernel
 
 end RbModel.Arabic
